@@ -77,13 +77,6 @@ static void vg_expected_path(void)
 	}
 	vg_want[k] = 0; vg_want_len = k;
 }
-static _Bool vg_is_want(const char *s)
-{
-	size_t k;
-	for (k = 0; k <= vg_want_len; k++) if (s[k] != vg_want[k]) return 0;
-	return 1;
-}
-
 /* ---------------------------------------------------------------- libc stand-ins */
 /* ASSUME: printf / fprintf / safe_printf / safe_fprintf / fflush / fwrite(stdout) write to the terminal streams
    only: no file-system object is created or modified by them (their arguments are the print unit's subject). */
@@ -105,7 +98,7 @@ unsigned vg_line, vg_col, vg_getchars; int vg_first[VG_ANSWERS + 1];
 static int vg_getchar(void)
 {
 	int c = nondet_int();
-	__CPROVER_assume(c >= -1 && c <= 255);
+	__CPROVER_assume(c >= -1 && c <= 255 && c != 0);      /* no NUL bytes typed (prompt_user would take the next character as the first) */
 	vg_getchars++;
 	if (c < 0) return c;
 	if (vg_col >= VG_ANSWER_LEN - 1) c = '\n';
@@ -143,19 +136,52 @@ static char *vg_strcat(char *dst, const char *src)
 	return dst;
 }
 
-/* ---------------------------------------------------------------- file-system and reader stand-ins */
-#define VG_CALLS 8
-unsigned vg_exists_calls, vg_mkdir_calls, vg_extract_calls, vg_fs_seq;
-char vg_exists_arg[VG_CALLS][VG_FULL + 1]; LHAFileType vg_exists_ret[VG_CALLS]; unsigned vg_exists_at[VG_CALLS];
-char vg_mkdir_arg[VG_CALLS][VG_FULL + 1]; int vg_mkdir_ret[VG_CALLS]; unsigned vg_mkdir_perm[VG_CALLS]; unsigned vg_mkdir_at[VG_CALLS];
-char vg_extract_arg[VG_FULL + 1]; int vg_extract_arg_null; unsigned vg_extract_at; int vg_extract_ret;
-LHADecoderProgressCallback vg_extract_cb;
-static void vg_copy(char *dst, const char *s)
+/* ASSUME: strdup returns NULL or a fresh copy of its argument.  Constant capacity VG_DUP_CAP instead of
+   strlen + 1 (a heap object of symbolic size exhausts the solver's memory, measured): accesses of
+   make_parent_directories beyond the copy's NUL but inside the capacity would go unnoticed, so the groups that
+   run it claim C10 only, not C08 (the print unit's groups cover its memory safety the same way). */
+#ifndef VG_P
+#define VG_P 8                          /* BOUND (make_parent_directories group): path of at most VG_P bytes */
+#endif
+#define VG_DUP_CAP ((VG_FULL > VG_P ? VG_FULL : VG_P) + 1)
+static char *vg_strdup(const char *src)
 {
-	size_t k;
-	__CPROVER_assert(s != NULL, "C08 file-system call: path is not NULL");
-	for (k = 0; s[k] != 0; k++) { __CPROVER_assert(k < VG_FULL, "path no longer than file_full_path can make it"); dst[k] = s[k]; }
-	dst[k] = 0;
+	size_t n = strlen(src), k; char *p;
+	__CPROVER_assert(n + 1 <= VG_DUP_CAP, "strdup stand-in: capacity suffices");
+	if (nondet_bool()) return NULL;
+	p = malloc(VG_DUP_CAP);
+	__CPROVER_assume(p != NULL);
+	for (k = 0; k <= n; k++) p[k] = src[k];
+	return p;
+}
+#undef strdup
+#define strdup vg_strdup
+
+/* ---------------------------------------------------------------- file-system and reader stand-ins */
+/* vg_ref: the output path every directory operation must be an ancestor of (NULL: no-mutation groups, where the
+   mutating stand-ins are unreachable and queries are only checked for being valid strings).  For each call
+   the stub checks the argument against vg_ref byte by byte and records its LENGTH: two verified prefixes of
+   the same reference with the same length are the same string. */
+#define VG_CALLS 6
+const char *vg_ref; size_t vg_ref_len;
+unsigned vg_exists_calls, vg_mkdir_calls, vg_extract_calls, vg_fs_seq;
+size_t vg_exists_n[VG_CALLS]; LHAFileType vg_exists_ret[VG_CALLS]; unsigned vg_exists_at[VG_CALLS];
+size_t vg_mkdir_n[VG_CALLS]; int vg_mkdir_ret[VG_CALLS]; unsigned vg_mkdir_perm[VG_CALLS]; unsigned vg_mkdir_at[VG_CALLS];
+int vg_extract_arg_null; unsigned vg_extract_at; int vg_extract_ret;
+LHADecoderProgressCallback vg_extract_cb;
+/* returns strlen(p); with a reference: p must be vg_ref[0..n) with n == vg_ref_len (only if whole_ok) or vg_ref[n] == '/' */
+static size_t vg_check_path(const char *p, _Bool whole_ok)
+{
+	size_t n;
+	__CPROVER_assert(p != NULL, "C08 file-system call: path is not NULL");
+	for (n = 0; p[n] != 0; n++) {
+		if (vg_ref != NULL) __CPROVER_assert(n < vg_ref_len && p[n] == vg_ref[n], "C10: the path handed to the file system is a prefix of the output path");
+	}
+	if (vg_ref != NULL) {
+		__CPROVER_assert((whole_ok && n == vg_ref_len) || (n >= 1 && n < vg_ref_len && vg_ref[n] == '/'),
+		                 "C10: the path handed to the file system is the output path itself or a proper ancestor directory of it (cut before a '/')");
+	}
+	return n;
 }
 /* ASSUME: lha_arch_exists is a query (stat): it changes nothing (group archunix.lha_arch_exists). */
 LHAFileType lha_arch_exists(char *filename)
@@ -163,7 +189,7 @@ LHAFileType lha_arch_exists(char *filename)
 	unsigned k = nondet_uint(); LHAFileType r;
 	r = k == 0 ? LHA_FILE_NONE : k == 1 ? LHA_FILE_FILE : k == 2 ? LHA_FILE_DIRECTORY : LHA_FILE_ERROR;
 	__CPROVER_assert(vg_exists_calls < VG_CALLS, "call bound");
-	vg_copy(vg_exists_arg[vg_exists_calls], filename);
+	vg_exists_n[vg_exists_calls] = vg_check_path(filename, 1);
 	vg_exists_ret[vg_exists_calls] = r; vg_exists_at[vg_exists_calls] = ++vg_fs_seq;
 	vg_exists_calls++;
 	return r;
@@ -176,8 +202,13 @@ int lha_arch_mkdir(char *path, unsigned int unix_perms)
 	__CPROVER_assert(0, "C10: list / test / print / dry run never create a directory");
 #endif
 	__CPROVER_assert(vg_mkdir_calls < VG_CALLS, "call bound");
-	vg_copy(vg_mkdir_arg[vg_mkdir_calls], path);
+	vg_mkdir_n[vg_mkdir_calls] = vg_check_path(path, 0);
 	vg_mkdir_ret[vg_mkdir_calls] = r; vg_mkdir_perm[vg_mkdir_calls] = unix_perms; vg_mkdir_at[vg_mkdir_calls] = ++vg_fs_seq;
+	/* C10: mkdir only directly after the same path was found not to exist */
+	__CPROVER_assert(vg_exists_calls >= 1 && vg_exists_at[vg_exists_calls - 1] + 1 == vg_fs_seq &&
+	                 vg_exists_ret[vg_exists_calls - 1] == LHA_FILE_NONE && vg_exists_n[vg_exists_calls - 1] == vg_mkdir_n[vg_mkdir_calls],
+	                 "C10: mkdir(p) only directly after lha_arch_exists(p) reported that nothing is there");
+	__CPROVER_assert(unix_perms == 0755, "parent directories are created with mode 0755");
 	vg_mkdir_calls++;
 	return r;
 }
@@ -194,7 +225,10 @@ int lha_reader_extract(LHAReader *reader, char *filename, LHADecoderProgressCall
 	__CPROVER_assert(vg_extract_calls == 0, "one extract per entry");
 	vg_extract_calls++; vg_extract_at = ++vg_fs_seq; vg_extract_cb = callback;
 	vg_extract_arg_null = (filename == NULL);
-	if (filename != NULL) vg_copy(vg_extract_arg, filename);
+	if (filename != NULL) {
+		size_t n = vg_check_path(filename, 1);
+		if (vg_ref != NULL) __CPROVER_assert(n == vg_ref_len, "C10: the library is told to extract to exactly the output path file_full_path specifies");
+	}
 	if (nondet_bool()) callback(nondet_uint(), nondet_uint(), callback_data);
 	vg_extract_ret = nondet_bool();
 	return vg_extract_ret;
@@ -238,11 +272,12 @@ LHAFileHeader *lha_filter_next_file(LHAFilter *filter)
 #include "src/extract.c"
 #undef malloc
 #undef strcat
+#undef strdup
 
 static void vg_begin(void)
 {
 	vg_prints = 0; vg_line = 0; vg_col = 0; vg_getchars = 0;
-	vg_exists_calls = 0; vg_mkdir_calls = 0; vg_extract_calls = 0; vg_fs_seq = 0; vg_members = 0; vg_chunks = 0;
+	vg_exists_calls = 0; vg_mkdir_calls = 0; vg_extract_calls = 0; vg_fs_seq = 0; vg_members = 0; vg_chunks = 0; vg_ref = NULL;
 	vg_any_options(); vg_any_header();
 }
 #define VG_LOWER(c) (((c) >= 'A' && (c) <= 'Z') ? (c) + 32 : (c))
@@ -285,19 +320,10 @@ void h_confirm_file_overwrite(void)
 }
 
 /* ---- make_parent_directories: touches only ancestors of the path it is given */
-#ifndef VG_P
-#define VG_P 8                          /* BOUND: path of at most VG_P bytes */
-#endif
 char vg_ppath[VG_P + 1], vg_ppath0[VG_P + 1];
-static size_t vg_is_ancestor(const char *p)      /* p == vg_ppath0[0..n) with vg_ppath0[n] == '/', n >= 1: returns n, else 0 */
-{
-	size_t n;
-	for (n = 0; p[n] != 0; n++) if (n >= VG_P || p[n] != vg_ppath0[n]) return 0;
-	return (n >= 1 && vg_ppath0[n] == '/') ? n : 0;
-}
 void h_make_parent_directories(void)
 {
-	unsigned j, e; int r; size_t k, n, last = 0; _Bool other = 0;
+	unsigned j; int r; size_t k; _Bool other = 0;
 	vg_begin();
 	__CPROVER_havoc_object(vg_ppath); vg_ppath[VG_P] = 0;
 	/* ASSUME (exclusion, see plan note): the path contains a character other than '/' (for "" or "///" the function
@@ -305,22 +331,16 @@ void h_make_parent_directories(void)
 	for (k = 0; vg_ppath[k] != 0; k++) if (vg_ppath[k] != '/') other = 1;
 	__CPROVER_assume(other);
 	for (k = 0; k <= VG_P; k++) vg_ppath0[k] = vg_ppath[k];
+	vg_ref = vg_ppath0; vg_ref_len = strlen(vg_ppath0);
 	r = make_parent_directories(vg_ppath);
 	for (k = 0; k <= VG_P; k++) __CPROVER_assert(vg_ppath[k] == vg_ppath0[k], "the caller's path string is not modified");
 	__CPROVER_assert(vg_extract_calls == 0, "make_parent_directories extracts nothing");
 	for (j = 0; j < vg_exists_calls; j++) {
-		n = vg_is_ancestor(vg_exists_arg[j]);
-		__CPROVER_assert(n > 0 && n > last, "C10: every path queried is a proper ancestor directory of the output path (a prefix ending before a '/'), outermost first");
-		last = n;
+		__CPROVER_assert(vg_exists_n[j] < vg_ref_len && (j == 0 || vg_exists_n[j] > vg_exists_n[j - 1]),
+		                 "C10: the ancestors are visited outermost first, the path itself is not touched");
 	}
-	for (j = 0, e = 0; j < vg_mkdir_calls; j++) {
-		/* the exists call that precedes this mkdir */
-		while (e < vg_exists_calls && vg_exists_at[e] + 1 != vg_mkdir_at[j]) e++;
-		__CPROVER_assert(e < vg_exists_calls && vg_exists_ret[e] == LHA_FILE_NONE, "C10: mkdir only directly after the same path was found not to exist");
-		for (k = 0; k <= VG_P; k++) { __CPROVER_assert(vg_mkdir_arg[j][k] == vg_exists_arg[e][k], "C10: mkdir gets exactly the ancestor path just queried"); if (vg_mkdir_arg[j][k] == 0) break; }
-		__CPROVER_assert(vg_mkdir_perm[j] == 0755, "parent directories are created with mode 0755");
+	for (j = 0; j < vg_mkdir_calls; j++)
 		__CPROVER_assert(vg_mkdir_ret[j] != 0 || (r == 0 && j + 1 == vg_mkdir_calls), "a failed mkdir ends the walk with failure");
-	}
 	VG_CANARY("make_parent_directories");
 }
 
@@ -331,6 +351,7 @@ void h_extract_archived_file(void)
 	vg_begin(); vg_expected_path();
 	/* ASSUME (exclusion as in make_parent_directories): the output path contains a character other than '/' */
 	{ size_t k; _Bool other = 0; for (k = 0; k < vg_want_len; k++) if (vg_want[k] != '/') other = 1; __CPROVER_assume(other); }
+	vg_ref = vg_want; vg_ref_len = vg_want_len;
 	p0 = vg_options.overwrite_policy;
 	is_symlink = vg_hdr.symlink_target != NULL;
 	is_dir = !is_symlink && vg_hdr.compress_method[0] == '-' && vg_hdr.compress_method[1] == 'l' && vg_hdr.compress_method[2] == 'h' &&
@@ -338,7 +359,7 @@ void h_extract_archived_file(void)
 	r = extract_archived_file(vg_reader, &vg_hdr, &vg_options);
 	asked_exists = !is_dir && !is_symlink;
 	if (asked_exists) {
-		__CPROVER_assert(vg_exists_calls >= 1 && vg_is_want(vg_exists_arg[0]), "the existence test is made on the output path itself");
+		__CPROVER_assert(vg_exists_calls >= 1 && vg_exists_n[0] == vg_want_len, "the existence test is made on the output path itself");
 	}
 	f = (vg_line >= 1) ? VG_LOWER(vg_first[vg_line - 1]) : 0;
 	declined = asked_exists && vg_exists_ret[0] != LHA_FILE_NONE &&
@@ -352,16 +373,11 @@ void h_extract_archived_file(void)
 		__CPROVER_assert(asked_exists && vg_exists_ret[0] != LHA_FILE_NONE ==> (p0 != LHA_OVERWRITE_SKIP && (p0 == LHA_OVERWRITE_ALL || f == 'y' || f == 'a')),
 		                 "C10 overwrite policy: an existing file is only replaced under policy ALL or after the answer yes / all");
 		if (vg_extract_calls == 1) {
-			__CPROVER_assert(!vg_extract_arg_null && vg_is_want(vg_extract_arg), "C10: the library is told to extract to exactly the path file_full_path specifies");
+			__CPROVER_assert(!vg_extract_arg_null, "C10: the library is given an explicit output path (checked against file_full_path's specification in the stand-in)");
 			__CPROVER_assert(vg_extract_cb == progress_callback && r == vg_extract_ret, "extract result and callback passed through");
 			for (j = 0; j < vg_mkdir_calls; j++) __CPROVER_assert(vg_mkdir_at[j] < vg_extract_at, "parent directories are made before the entry is extracted");
 		} else {
 			__CPROVER_assert(r == 0, "no extraction only if making the parent directories failed");
-		}
-		for (j = 0; j < vg_mkdir_calls; j++) {
-			size_t n; _Bool pre = 1;
-			for (n = 0; vg_mkdir_arg[j][n] != 0; n++) if (n >= vg_want_len || vg_mkdir_arg[j][n] != vg_want[n]) pre = 0;
-			__CPROVER_assert(pre && n >= 1 && n < vg_want_len && vg_want[n] == '/', "C10: every directory made is a proper ancestor of the output path");
 		}
 	}
 	VG_CANARY("extract_archived_file");
